@@ -275,15 +275,16 @@ def _plumbing():
     return out
 
 
-def rule_codec_api(ctx):
-    R = "C09.7"
-    ctx.rule(R, "codec API census: the external functions called by read()/build() implementations (and their closures) are exactly the reviewed, value-preserving conversions (tables/codec_api.json); a new conversion in a decoder or encoder is reported")
+def rule_codec_api(ctx, R="C09.7", only=None, floor=50, desc=None):
+    ctx.rule(R, desc or "codec API census: the external functions called by read()/build() implementations (and their closures) are exactly the reviewed, value-preserving conversions (tables/codec_api.json); a new conversion in a decoder or encoder is reported")
     tab = ctx.table("codec_api.json")
     n = 0
     for kind in ("read", "build"):
         allowed = set(tab[kind]) | _plumbing()
         seen = {}
         for g in impls(ctx, kind):
+            if only is not None and not only(str(g.item.impl_self)):
+                continue
             for h in family(ctx, g):
                 for c in ctx.T(h).calls():
                     if not c["decl"].ws:
@@ -296,7 +297,7 @@ def rule_codec_api(ctx):
             if q not in allowed:
                 ctx.ob(R, "%s calls %s" % (kind, q), False, "%s() of %s calls %s, which is not among the reviewed value-preserving conversions: a normalising or lossy step in a %s breaks decode(encode(v)) == v / byte-identical re-encoding" % (kind, g.item.impl_self, q, "decoder" if kind == "read" else "encoder"), h.loc(c["t"].get("ln")))
         ctx.ob(R, "%s census" % kind, all(q in allowed for q in seen), "%d distinct external callees, all reviewed" % len(seen) if all(q in allowed for q in seen) else "unreviewed callees present")
-    ctx.floor(R, "distinct external callees in codecs", n, 50)
+    ctx.floor(R, "distinct external callees in codecs", n, floor)
 
 
 
